@@ -197,9 +197,10 @@ pub fn record(seed: u64, nev: usize, out: &str) {
                 ev.insert("coef_max".into(), json!(ft.coef.iter().fold(0.0f64, |m, c| m.max(c.abs()))));
                 let predok = { let pr = &ft.pred; (0..n).all(|i| { let h = (0..p).map(|j| x[i * p + j] * ft.coef[j]).sum::<f64>() + o[i];
                     let m = match fam { "Gaussian" => h, "Bernoulli" => 1.0 / (1.0 + (-h).exp()), _ => h.exp() }; (pr[i] - m).abs() <= 1e-12 * m.abs().max(1.0) }) };
-                // the reported deviance is the family's deviance at the fitted means (weighted fits included)
+                // the reported deviance is the family's deviance at the fitted means (weighted fits included), to within the tolerance
                 let dd = deviance_def(fam, &y, &ft.pred);
-                ev.insert("deviance_is_definition".into(), json!((ft.dev - dd).abs() <= 1e-9 * dd.abs().max(1.0)));
+                // (the crate evaluates it at the means of the last scoring step, one relative change below the tolerance away)
+                ev.insert("deviance_is_definition".into(), json!((ft.dev - dd).abs() <= (1e-9 + 16.0 * tol) * dd.abs().max(1.0)));
                 ev.insert("out".into(), json!("ok")); ev.insert("score_rel_log2".into(), json!(if rel <= 0.0 { -1074 } else { rel.log2().ceil() as i64 }));
                 ev.insert("finite".into(), json!(ft.coef.iter().chain(ft.se.iter()).all(|v| v.is_finite()))); ev.insert("predict_is_inverse_link".into(), json!(predok));
             }
